@@ -607,13 +607,14 @@ class NUMERIC(FieldType):
 
         # Column configuration
         if default is None:
-            if numtype is int:
-                default = typecode_max[self.sortable_typecode]
-            else:
-                default = NaN
+            # No value: the largest sortable value (for floats that is a NaN)
+            default = typecode_max[self.sortable_typecode]
         elif not self.is_valid(default):
             raise Exception("The default %r is not a valid number for this "
                             "field" % default)
+        else:
+            # The column holds sortable values, so the default must be one too
+            default = self.to_column_value(default)
 
         self.default = default
         self.set_sortable(sortable)
